@@ -1,0 +1,1 @@
+//! Verification hook: public wrapper of the connection pool (pool::PoolWatch).
